@@ -137,8 +137,9 @@ package lexer
 //@   ensures @C14 nexttoken.progress: result.Type != token.EOF ==> l.readPosition > old(l.readPosition)
 //@   ensures @C14 nexttoken.division: (result.Type == token.SLASH || result.Type == token.SLASHEQUALS) ==> divisionContext(old(l.prevToken.Type))
 //@   ensures @C14 nexttoken.regexp: result.Type == token.REGEXP ==> !divisionContext(old(l.prevToken.Type))
-//@   decreases @C14 len(l.characters) + 2 - l.readPosition
 //@   panics never
+//@ loop 1 invariant nexttoken.comments: lexOK(l) && chOK(l) && !isWS(l.ch) && l.readPosition >= entry(l.readPosition)
+//@ loop 1 decreases @C14 len(l.characters) + 1 - l.readPosition
 
 //@ func New(input string) (result *Lexer)
 //@   tags C08
